@@ -61,6 +61,18 @@ MUTANTS = [
     ('m15-substitute-outputs-to-pin0', ['C10'], 'circuit.py',
      "                ll.driver = node_map[l.driver]\n                ll.driver_pin = l.driver_pin",
      "                ll.driver = node_map[l.driver]\n                ll.driver_pin = 0"),
+    ('m16-callback-gets-copy-8v', ['C16'], 'logic_sim.py',
+     "                if inject_cb is not None and ol < len(self.circuit.lines): inject_cb(self.circuit.lines[ol], self.c[o0])\n\n    def c_to_s(self):",
+     "                if inject_cb is not None and ol < len(self.circuit.lines): inject_cb(self.circuit.lines[ol], self.c[o0].copy())\n\n    def c_to_s(self):"),
+    ('m17-callback-skips-buffers-4v', ['C16'], 'logic_sim.py',
+     "                if inject_cb is not None and ol < len(self.circuit.lines): inject_cb(self.circuit.lines[ol], self.c[o0])\n        else:",
+     "                if inject_cb is not None and op != sim.BUF1 and ol < len(self.circuit.lines): inject_cb(self.circuit.lines[ol], self.c[o0])\n        else:"),
+    ('m22-callback-wrong-line-2v', ['C16'], 'logic_sim.py',
+     "                    if ol < len(self.circuit.lines): inject_cb(self.circuit.lines[ol], self.c[o0])",
+     "                    if ol < len(self.circuit.lines): inject_cb(self.circuit.lines[max(ol - 1, 0)], self.c[o0])"),
+    ('m23-callback-before-evaluation-of-buffers-8v', ['C16'], 'logic_sim.py',
+     "                if op == sim.BUF1: self.c[o0]=self.c[i0]\n                elif op == sim.INV1: logic.bp8v_not(self.c[o0], self.c[i0])",
+     "                if op == sim.BUF1: inject_cb is not None and ol < len(self.circuit.lines) and inject_cb(self.circuit.lines[ol], self.c[o0]); self.c[o0]=self.c[i0]; continue\n                elif op == sim.INV1: logic.bp8v_not(self.c[o0], self.c[i0])"),
     ('m18-capture-uses-le', ['C13', 'C06'], 'wave_sim.py',
      "        t = c[line + tidx, vector]\n        if t >= TMAX:\n            if t == TMAX_OVL:\n                ovl = 1\n            break\n        m = -m\n        final ^= 1\n        if t < time:",
      "        t = c[line + tidx, vector]\n        if t >= TMAX:\n            if t == TMAX_OVL:\n                ovl = 1\n            break\n        m = -m\n        final ^= 1\n        if t <= time:"),
